@@ -53,6 +53,7 @@ func (w *World) compileAxioms() error {
 				body = A("forall", A("("+strings.Join(binders, " ")+")"), body)
 			}
 			w.axioms = append(w.axioms, &compiledAxiom{ax: ax, term: body})
+			w.assumptions["library axiom (ground, always included) "+ax.Name+": "+ax.Text] = true
 		}()
 		if err != nil {
 			return err
